@@ -147,6 +147,28 @@ structure ClsInfo where
   priority : Int
 deriving Inhabited
 
+/-- names of instances: the default processors, the instance built from the description item
+with that label, the n-th instance built by a scripted reaction -/
+inductive Label where
+  | dflt (k : Nat)
+  | item (n : Nat)
+  | spawn (n : Nat)
+deriving DecidableEq, Inhabited
+
+/-- what a scripted callback does to the world it is called with -/
+inductive ROp where
+  /-- `world.dispatch_enabled = b` -/
+  | enable (b : Bool)
+  /-- `world.create_entity(K(), .., entity_id=eid)` -/
+  | spawn (eid : Option EntId) (classes : List Nat)
+  /-- `world.add_component(e, K())` -/
+  | add (e : EntId) (c : Nat)
+  /-- `world.remove_component(e, K)` -/
+  | remove (e : EntId) (c : Nat)
+  /-- `world.dispatch(ev)` -/
+  | dispatch (ev : Str)
+deriving Inhabited
+
 structure Universe where
   resolve : Str → Except Exc Val
   getItem : Str → Except Exc Val
@@ -157,6 +179,11 @@ structure Universe where
   /-- does the constructor call that builds the instance with this label raise (constructors are
   the program's; the scenario scripts "the n-th call of class C raises") -/
   ctorRaises : Nat → Bool := fun _ => false
+  /-- scripted reaction of the k-th call of a method of an instance (callbacks are the program's) -/
+  reaction : Label → Str → Nat → List ROp := fun _ _ _ => []
+  /-- the classes of the program in creation order and the base each one names (`__subclasses__`) -/
+  classIds : List Nat := []
+  baseOf : Nat → Option Nat := fun _ => none
 
 def clsOnUpdate : Nat := 0
 def clsCoroutine : Nat := 1
@@ -294,10 +321,6 @@ def descLoads (U : Universe) (d : Desc) : List Nat :=
 
 /-! ### the world (logic/world.py) -/
 
-inductive Label where
-  | dflt (k : Nat)
-  | item (n : Nat)
-deriving DecidableEq, Inhabited
 
 /-- an instance: the class and the arguments its constructor was called with -/
 structure Inst where
@@ -321,6 +344,8 @@ inductive Ev where
   | single (event : Str) (h : Inst) (args : CbArgs)
   /-- `dispatch('on_world_load', handle, world)` -/
   | worldLoad
+  /-- `dispatch(name)` by a scripted reaction -/
+  | event (name : Str)
 deriving Inhabited
 
 structure Entry where
@@ -364,6 +389,9 @@ def deliver (U : Universe) (w : World) : Ev → World
   | .worldLoad =>
     (w.handlers.filter (fun h => ((eventsOf U h.cls).bind (fun m => Dict.get? m onWorldLoad)).isSome)).foldl
       (fun w h => callMapped U w onWorldLoad h .handleWorld) w
+  | .event name =>
+    (w.handlers.filter (fun h => ((eventsOf U h.cls).bind (fun m => Dict.get? m name)).isSome)).foldl
+      (fun w h => callMapped U w name h .none) w
 
 /-- the lifecycle idiom of logic/world.py "call directly when enabled, else relay through
 on_single_dispatch" -/
@@ -534,6 +562,193 @@ def setEnabled (U : Universe) (w : World) (b : Bool) : World :=
   let w := { w with enabled := b }
   if b then release U w w.queue else w
 
+/-! ### callbacks that act on the world (scripted reactions)
+
+Loading itself runs no callback (the world is disabled).  Once dispatching is enabled the postponed
+events are delivered, and a callback may do anything to the world: suspend and resume dispatching,
+create entities, add and remove components, dispatch events.  Re-entrancy is real recursion,
+bounded by a fuel parameter that stands for "the program terminates".  The order in which a
+listener `set` is visited is Python's business: the model follows the receiver sequence of the
+implementation (`hints`) and validates every step of it. -/
+
+structure RW where
+  w : World
+  calls : Dict (Label × Str) Nat := []
+  hints : List Label := []
+  nextSpawn : Nat := 0
+  /-- keys of `_events`: names some handler that was ever registered listens to; `dispatch` drops
+  any other event at once (events.py: "unknown events are silently dropped") -/
+  known : List Str := []
+  /-- `bad-hint` / `hang` -/
+  bad : Option String := none
+deriving Inhabited
+
+def RW.stop (rw : RW) : Bool := rw.bad.isSome || rw.w.failed.isSome
+
+/-- snapshot of the listeners of an event, `set(self._events[event_name])` -/
+def listeners (U : Universe) (w : World) (ev : Str) : List Inst :=
+  w.handlers.filter (fun h => ((eventsOf U h.cls).bind (fun m => Dict.get? m ev)).isSome)
+
+def eventNames (U : Universe) (c : Nat) : List Str := ((eventsOf U c).getD []).keys
+
+/-- `add_handler` -/
+def RW.register (U : Universe) (rw : RW) (c : Inst) : RW :=
+  { rw with w := { rw.w with handlers := rw.w.handlers ++ [c] },
+            known := rw.known ++ (eventNames U c.cls).filter (fun n => !rw.known.contains n) }
+
+def subclassesOf (U : Universe) (c : Nat) : List Nat := U.classIds.filter (fun d => U.baseOf d = some c)
+
+/-- the walk of `remove_component`: `fringe.pop()`, the type itself first, then its subclasses -/
+def findOwned (U : Universe) (row : Dict Nat Inst) : Nat → List Nat → Option Nat
+  | 0, _ => none
+  | fuel + 1, fringe =>
+    match fringe.getLast? with
+    | none => none
+    | some sub =>
+      if Dict.contains row sub then some sub
+      else findOwned U row fuel (fringe.dropLast ++ subclassesOf U sub)
+
+mutual
+/-- a callback: log entry, then the scripted reaction -/
+def callR (U : Universe) : Nat → RW → Str → Inst → CbArgs → RW
+  | 0, rw, _, _, _ => { rw with bad := some "hang" }
+  | f + 1, rw, event, h, a =>
+    match (eventsOf U h.cls).bind (fun m => Dict.get? m event) with
+    | none => { rw with w := { rw.w with failed := some "KeyError" } }
+    | some meth =>
+      match rw.hints with
+      | [] => { rw with bad := some "bad-hint" }
+      | x :: hs =>
+        if x ≠ h.label then { rw with bad := some "bad-hint" } else
+        let k := (Dict.get? rw.calls (h.label, meth)).getD 0
+        let rw := { rw with w := { rw.w with log := rw.w.log ++ [⟨h.label, meth, a⟩] },
+                            calls := Dict.set rw.calls (h.label, meth) (k + 1), hints := hs }
+        execOps U f rw (U.reaction h.label meth k)
+
+def execOps (U : Universe) : Nat → RW → List ROp → RW
+  | 0, rw, _ => { rw with bad := some "hang" }
+  | _ + 1, rw, [] => rw
+  | f + 1, rw, op :: rest =>
+    let rw := execOp U f rw op
+    if rw.stop then rw else execOps U f rw rest
+
+def execOp (U : Universe) : Nat → RW → ROp → RW
+  | 0, rw, _ => { rw with bad := some "hang" }
+  | f + 1, rw, .enable b =>
+    -- events.py: the setter; enabling depletes the queue
+    let rw := { rw with w := { rw.w with enabled := b } }
+    if b then releaseR U f rw else rw
+  | f + 1, rw, .dispatch ev =>
+    if !rw.known.contains ev then rw else
+    if rw.w.enabled then deliverSetR U f rw ev .none (listeners U rw.w ev)
+    else { rw with w := { rw.w with queue := rw.w.queue ++ [.event ev] } }
+  | f + 1, rw, .spawn eid cs =>
+    -- World.create_entity
+    let insts := (List.range cs.length).zipWith (fun i c => (⟨.spawn (rw.nextSpawn + i), c, [], []⟩ : Inst)) cs
+    let rw := { rw with nextSpawn := rw.nextSpawn + cs.length }
+    let (e, w) := match eid with
+      | some e => (e, rw.w)
+      | none =>
+        let n := nextFree rw.w.entities rw.w.nextAuto (rw.w.entities.length + 1)
+        (EntId.int n, { rw.w with nextAuto := n + 1 })
+    let rw := { rw with w := w }
+    let replaced := (Dict.keys ((Dict.get? rw.w.entities e).getD [])).filter (fun c => cs.any (fun x => x = c))
+    let rw := removeAllR U f rw e replaced
+    if rw.stop then rw else
+    let rw := { rw with w := { rw.w with entities := insts.foldl (fun ents c => setComp ents e c) rw.w.entities } }
+    registerAllR U f rw e insts
+  | f + 1, rw, .add e c =>
+    -- World.add_component
+    let i : Inst := ⟨.spawn rw.nextSpawn, c, [], []⟩
+    let rw := { rw with nextSpawn := rw.nextSpawn + 1 }
+    let rw := if Dict.contains ((Dict.get? rw.w.entities e).getD []) c then removeCompR U f rw e c else rw
+    if rw.stop then rw else
+    let rw := { rw with w := { rw.w with entities := setComp rw.w.entities e i } }
+    registerAllR U f rw e [i]
+  | f + 1, rw, .remove e c =>
+    -- World.remove_component: the type itself, else the first subclass the walk meets
+    match findOwned U ((Dict.get? rw.w.entities e).getD []) (U.classIds.length + 2) [c] with
+    | none => rw
+    | some sub => removeCompR U f rw e sub
+
+def removeAllR (U : Universe) : Nat → RW → EntId → List Nat → RW
+  | 0, rw, _, _ => { rw with bad := some "hang" }
+  | _ + 1, rw, _, [] => rw
+  | f + 1, rw, e, c :: cs =>
+    let rw := removeCompR U f rw e c
+    if rw.stop then rw else removeAllR U f rw e cs
+
+/-- `remove_component` for a type the entity owns itself -/
+def removeCompR (U : Universe) : Nat → RW → EntId → Nat → RW
+  | 0, rw, _, _ => { rw with bad := some "hang" }
+  | f + 1, rw, e, c =>
+    match (Dict.get? rw.w.entities e).bind (fun row => Dict.get? row c) with
+    | none => rw
+    | some removed =>
+      let row := Dict.erase ((Dict.get? rw.w.entities e).getD []) c
+      let ents := if row.isEmpty then Dict.erase rw.w.entities e else Dict.set rw.w.entities e row
+      let rw := { rw with w := { rw.w with entities := ents } }
+      match eventsOf U c with
+      | none => rw
+      | some m =>
+        let rw := if (Dict.get? m onRemove).isSome then emitR U f rw onRemove removed (.entWorld e) else rw
+        { rw with w := { rw.w with handlers := rw.w.handlers.filter (fun h => h.label ≠ removed.label) } }
+
+/-- the event handling loop of `create_entity` / the tail of `add_component` -/
+def registerAllR (U : Universe) : Nat → RW → EntId → List Inst → RW
+  | 0, rw, _, _ => { rw with bad := some "hang" }
+  | _ + 1, rw, _, [] => rw
+  | f + 1, rw, e, c :: cs =>
+    match eventsOf U c.cls with
+    | none => registerAllR U f rw e cs
+    | some m =>
+      let rw := rw.register U c
+      let rw := if (Dict.get? m onAdd).isSome then emitR U f rw onAdd c (.entWorld e) else rw
+      if rw.stop then rw else registerAllR U f rw e cs
+
+def emitR (U : Universe) : Nat → RW → Str → Inst → CbArgs → RW
+  | 0, rw, _, _, _ => { rw with bad := some "hang" }
+  | f + 1, rw, event, h, a =>
+    if rw.w.enabled then callR U f rw event h a
+    else { rw with w := { rw.w with queue := rw.w.queue ++ [.single event h a] } }
+
+/-- `for handler_ref, method_ref in set(...)`: the snapshot is visited in the order the
+implementation visited it; every hinted receiver must be a member that was not called yet -/
+def deliverSetR (U : Universe) : Nat → RW → Str → CbArgs → List Inst → RW
+  | 0, rw, _, _, _ => { rw with bad := some "hang" }
+  | _ + 1, rw, _, _, [] => rw
+  | f + 1, rw, ev, a, remaining =>
+    match rw.hints with
+    | [] => { rw with bad := some "bad-hint" }
+    | x :: _ =>
+      match remaining.find? (fun h => h.label = x) with
+      | none => { rw with bad := some "bad-hint" }
+      | some h =>
+        let rw := callR U f rw ev h a
+        if rw.stop then rw else deliverSetR U f rw ev a (remaining.filter (fun h => h.label ≠ x))
+
+/-- `while self._event_queue and self._dispatch_enabled: pop(0); dispatch(...)` : events.py -/
+def releaseR (U : Universe) : Nat → RW → RW
+  | 0, rw => { rw with bad := some "hang" }
+  | f + 1, rw =>
+    match rw.w.queue with
+    | [] => rw
+    | ev :: q =>
+      if !rw.w.enabled then rw else
+      let rw := deliverEvR U f { rw with w := { rw.w with queue := q } } ev
+      if rw.stop then rw else releaseR U f rw
+
+/-- `dispatch(event_name, *args)` of a released event while dispatching is enabled -/
+def deliverEvR (U : Universe) : Nat → RW → Ev → RW
+  | 0, rw, _ => { rw with bad := some "hang" }
+  | f + 1, rw, .single event h a => callR U f rw event h a
+  | f + 1, rw, .worldLoad => deliverSetR U f rw onWorldLoad .handleWorld (listeners U rw.w onWorldLoad)
+  | f + 1, rw, .event name => deliverSetR U f rw name .none (listeners U rw.w name)
+end
+
+/-- `world.dispatch_enabled = True` by the program that loaded the world -/
+def setEnabledR (U : Universe) (fuel : Nat) (rw : RW) : RW := execOp U fuel rw (.enable true)
+
 /-! ### line protocol -/
 open Proto
 
@@ -640,6 +855,7 @@ def showEntId : EntId → String
 def showLabel : Label → String
   | .dflt k => s!"d{k}"
   | .item n => s!"i{n}"
+  | .spawn n => s!"x{n}"
 
 def showCbArgs : CbArgs → String
   | .none => "()"
@@ -704,11 +920,16 @@ inductive Step where
   | reload
   /-- a second `WorldFromFileHandle` for the same file, stored in the same tree, is loaded -/
   | load2
+  /-- `outer[key] = <the map at path ip, seen from the root above the world handle>` (`-`: that
+  root): a map is mounted into the bigger tree `outer`; if it holds the world handle the root above
+  the handle changes -/
+  | mount (ip : Str) (key : Str)
+  /-- `outer.clear()`: the maps mounted directly in `outer` become roots again -/
+  | unmount
 deriving Inhabited
 
 /-- the resource tree as it is now: nodes, cached values, `load()` counters -/
 structure TreeSt where
-  tree : Dict Str Node := []
   /-- generation of the value a handle has cached -/
   cached : Dict Nat Nat := []
   /-- number of `load()` calls of a handle so far -/
@@ -717,6 +938,19 @@ structure TreeSt where
   ctorCounts : Dict Nat Nat := []
   /-- `_cache` of the world handle (`none`: not cached) -/
   worldCache : Option World := none
+  /-- the ResourceMap objects: contents of every map, by map id -/
+  maps : Dict Nat (Dict Str Node) := []
+  /-- `.parent` of a map (absent: `None`) -/
+  parent : Dict Nat Nat := []
+  /-- the map that holds the world handle (its `.parent`) -/
+  worldParent : Option Nat := none
+  /-- fresh ids for maps that `__setitem__` creates on the way of a composite key -/
+  nextImplicit : Nat := 2000000
+  /-- number of the next load -/
+  loadNo : Nat := 1
+  /-- path of the world handle from that root, along its `parent` links (a mounted map stays
+  reachable under its old path too, but `parent` points to where it was put last) -/
+  worldPath : Option Str := none
 deriving Inhabited
 
 structure Parsed where
@@ -724,6 +958,7 @@ structure Parsed where
   names : Dict Str Val := []
   moduleName : Str := []
   tree : Dict Str Node := []
+  outer : Dict Str Node := []
   mode : Mode := .file
   inTree : Bool := true
   procs : List Item := []
@@ -731,6 +966,13 @@ structure Parsed where
   rx : List Str := []
   /-- `raise=`: the constructor calls (0-based, counted per class over the whole scenario) that raise -/
   raises : Dict Nat (List Nat) := []
+  /-- `base=` of the class statements, classes in creation order -/
+  bases : Dict Nat Nat := []
+  /-- `react <label> <method> <k> : op ; op ..` -/
+  reactions : Dict (Label × Str × Nat) (List ROp) := []
+  /-- `hint <load number> <labels>`: receivers of the callbacks of that load, as the implementation
+  called them -/
+  hints : Dict Nat (List Label) := []
   steps : List Step := []
   nextLabel : Nat := 0
   bad : Bool := false
@@ -762,6 +1004,38 @@ def typeVal (p : Parsed) (name : Str) : Option Val :=
     | some (.cls c) => some (.cls c)
     | _ => none
 
+def parseLabel (t : String) : Option Label :=
+  match t.toList with
+  | 'd' :: ds => (String.ofList ds).toNat?.map .dflt
+  | 'i' :: ds => (String.ofList ds).toNat?.map .item
+  | 'x' :: ds => (String.ofList ds).toNat?.map .spawn
+  | _ => none
+
+def parseROp : List String → Option ROp
+  | ["enable", b] => (bool? b).map .enable
+  | ["spawn", id, cs] =>
+    match parseEntId id, natList? cs with
+    | some eid, some cs => some (.spawn eid cs)
+    | _, _ => none
+  | ["add", id, c] =>
+    match parseEntId id, c.toNat? with
+    | some (some e), some c => some (.add e c)
+    | _, _ => none
+  | ["remove", id, c] =>
+    match parseEntId id, c.toNat? with
+    | some (some e), some c => some (.remove e c)
+    | _, _ => none
+  | ["dispatch", ev] => some (.dispatch ev.toList)
+  | _ => none
+
+/-- `op ; op ; op` -/
+def parseROps (toks : List String) : Option (List ROp) :=
+  let groups := toks.foldr (fun t acc =>
+      if t = ";" then [] :: acc else match acc with
+        | [] => [[t]]
+        | g :: gs => (t :: g) :: gs) [[]]
+  (groups.filter (· ≠ [])).mapM parseROp
+
 def parseLine (p : Parsed) (line : String) : Parsed :=
   match tokens line with
   | "cls" :: cid :: kind :: pr :: ev :: rest =>
@@ -778,7 +1052,10 @@ def parseLine (p : Parsed) (line : String) : Parsed :=
     | some c, some prio, some evs =>
       if c < 2 ∨ (kind ≠ "proc" ∧ kind ≠ "comp") ∨ !baseOk then { p with bad := true } else
       { p with classes := Dict.set p.classes c { isProc := kind = "proc", events := evs, priority := prio },
-               raises := Dict.set p.raises c raiseSpec }
+               raises := Dict.set p.raises c raiseSpec,
+               bases := match rest.findSome? (fun b => (stripPfx "base=" b).bind String.toNat?) with
+                 | some b => Dict.set p.bases c b
+                 | none => p.bases }
     | _, _, _ => { p with bad := true }
   | ["module", m] =>
     match decTok m with
@@ -807,6 +1084,19 @@ def parseLine (p : Parsed) (line : String) : Parsed :=
     match decTok path, m.toNat? with
     | some path, some m => { p with tree := Dict.set p.tree path (.map m) }
     | _, _ => { p with bad := true }
+  | ["tree2", path, "handle", h] =>
+    match decTok path, h.toNat? with
+    | some path, some h => { p with outer := Dict.set p.outer path (.handle h) }
+    | _, _ => { p with bad := true }
+  | ["tree2", path, "map", m] =>
+    match decTok path, m.toNat? with
+    | some path, some m => { p with outer := Dict.set p.outer path (.map m) }
+    | _, _ => { p with bad := true }
+  | ["step", "mount", ip, key] =>
+    match decTok ip, decTok key with
+    | some ip, some key => { p with steps := p.steps ++ [.mount ip key] }
+    | _, _ => { p with bad := true }
+  | ["step", "unmount"] => { p with steps := p.steps ++ [.unmount] }
   | "tree" :: path :: "world" :: _ =>
     match decTok path with
     | some path => { p with tree := Dict.set p.tree path .world }
@@ -822,6 +1112,14 @@ def parseLine (p : Parsed) (line : String) : Parsed :=
       | some tv => { p with procs := p.procs ++ [mkItem p tv args kw], nextLabel := p.nextLabel + 1 }
       | none => { p with bad := true }
     | _, _ => { p with bad := true }
+  | ["ent", "same"] =>
+    -- the previous entity dictionary is listed once more (the very same object on the dictionary
+    -- path): one more entity, built from the same description
+    match p.ents.getLast? with
+    | some (eid, cs) =>
+      let cs' := (List.range cs.length).zipWith (fun i (c : Item) => { c with label := p.nextLabel + i }) cs
+      { p with ents := p.ents ++ [(eid, cs')], nextLabel := p.nextLabel + cs.length }
+    | none => { p with bad := true }
   | ["ent", id] =>
     match parseEntId id with
     | some eid => { p with ents := p.ents ++ [(eid, [])] }
@@ -841,6 +1139,14 @@ def parseLine (p : Parsed) (line : String) : Parsed :=
   | ["step", "replace", path, h] =>
     match decTok path, h.toNat? with
     | some path, some h => { p with steps := p.steps ++ [.replace path h] }
+    | _, _ => { p with bad := true }
+  | "react" :: lab :: meth :: k :: ":" :: rest =>
+    match parseLabel lab, k.toNat?, parseROps rest with
+    | some l, some k, some ops => { p with reactions := Dict.set p.reactions (l, meth.toList, k) ops }
+    | _, _, _ => { p with bad := true }
+  | ["hint", k, labs] =>
+    match k.toNat?, (splitList labs).mapM parseLabel with
+    | some k, some ls => { p with hints := Dict.set p.hints k ls }
     | _, _ => { p with bad := true }
   | ["step", "call"] => { p with steps := p.steps ++ [.call] }
   | ["step", "reload"] => { p with steps := p.steps ++ [.reload] }
@@ -864,6 +1170,61 @@ def resolveDefault (moduleName name : Str) : Exc :=
   | h :: _ => if h = moduleName then "AttributeError" else "ModuleNotFoundError"
   | [] => "ValueError"
 
+def innerRoot : Nat := 0
+def outerRoot : Nat := 1000000
+
+def TreeSt.contents (t : TreeSt) (m : Nat) : Dict Str Node := (Dict.get? t.maps m).getD []
+
+/-- `for subkey in keys[:-1]: value = value.maps[subkey]` : model/tree.py -/
+def TreeSt.walk (t : TreeSt) : Nat → List Str → Option Nat
+  | m, [] => some m
+  | m, c :: cs =>
+    match Dict.get? (t.contents m) c with
+    | some (.map m') => t.walk m' cs
+    | _ => none
+
+/-- what `ResourceMap.get(path)` finds from the map `root` -/
+def TreeSt.node (t : TreeSt) (root : Nat) (path : Str) : Option Node :=
+  let comps := splitOn '/' path
+  match t.walk root comps.dropLast, comps.getLast? with
+  | some m, some last => Dict.get? (t.contents m) last
+  | _, _ => none
+
+/-- `while root_map.parent is not None: root_map = root_map.parent` from the world handle:
+model/world.py, `get_root_map` -/
+def TreeSt.climb (t : TreeSt) : Nat → Nat → Nat
+  | 0, m => m
+  | fuel + 1, m =>
+    match Dict.get? t.parent m with
+    | some p => t.climb fuel p
+    | none => m
+
+def TreeSt.root (t : TreeSt) : Nat := t.climb (t.maps.length + 1) (t.worldParent.getD innerRoot)
+
+/-- `m[name] = value` for a single name: the value's `parent` is the map -/
+def TreeSt.setEntry (t : TreeSt) (m : Nat) (name : Str) (n : Node) : TreeSt :=
+  let t := { t with maps := Dict.set t.maps m (Dict.set (t.contents m) name n) }
+  match n with
+  | .map c => { t with maps := if Dict.contains t.maps c then t.maps else Dict.set t.maps c [],
+                       parent := Dict.set t.parent c m }
+  | .world => { t with worldParent := some m }
+  | .handle _ => t
+
+/-- `ResourceMap.__setitem__(path, value)` from the map `m`: missing maps on the way are created -/
+def TreeSt.insert (t : TreeSt) : Nat → List Str → Node → TreeSt
+  | _, [], _ => t
+  | m, [name], n => t.setEntry m name n
+  | m, c :: cs, n =>
+    match Dict.get? (t.contents m) c with
+    | some (.map m') => t.insert m' cs n
+    | _ =>
+      let fresh := t.nextImplicit
+      ({ t.setEntry m c (.map fresh) with nextImplicit := fresh + 1 }).insert fresh cs n
+
+def TreeSt.build (t : TreeSt) (root : Nat) (entries : Dict Str Node) : TreeSt :=
+  entries.foldl (fun t e => t.insert root (splitOn '/' e.1) e.2)
+    { t with maps := if Dict.contains t.maps root then t.maps else Dict.set t.maps root [] }
+
 /-- the value `handle()` returns now: the cached one, else the one the next `load()` builds -/
 def TreeSt.genOf (t : TreeSt) (h : Nat) : Nat :=
   match Dict.get? t.cached h with
@@ -875,18 +1236,21 @@ def Parsed.universeAt (p : Parsed) (t : TreeSt) : Universe where
   resolve := fun n => match Dict.get? p.names n with
     | some v => .ok v
     | none => .error (resolveDefault p.moduleName n)
-  getItem := fun path => match Dict.get? t.tree path with
+  getItem := fun path => match t.node t.root path with
     | some (.handle h) => .ok (.loaded h (t.genOf h))
     | some (.map m) => .ok (.map m)
     | some .world => .error "RecursionError"
     | none => .error "KeyError"
-  getHandle := fun path => match Dict.get? t.tree path with
+  getHandle := fun path => match t.node t.root path with
     | some (.handle h) => .handle h
     | some (.map m) => .map m
     | some .world => .worldHandle
     | none => .json .null
   inTree := p.inTree
   userInfo := fun c => Dict.get? p.classes c
+  reaction := fun l m k => (Dict.get? p.reactions (l, m, k)).getD []
+  classIds := p.classes.keys
+  baseOf := fun c => Dict.get? p.bases c
 
 def showGroup : Option Str → String
   | none => "-"
@@ -897,7 +1261,7 @@ def showRx (s : Str) : String :=
 
 def isItemLabel : Label → Bool
   | .item _ => true
-  | .dflt _ => false
+  | _ => false
 
 /-- `handle()` for every handle in `hs`: those without a cached value are loaded -/
 def TreeSt.call (t : TreeSt) (hs : List Nat) : TreeSt :=
@@ -908,7 +1272,7 @@ def TreeSt.call (t : TreeSt) (hs : List Nat) : TreeSt :=
 
 /-- callbacks of the `on_world_load` delivery come out of a `set`: sorted -/
 def sortLabels (l : List Entry) : List Entry :=
-  let key : Entry → Nat := fun e => match e.recv with | .dflt k => k | .item n => n + 2
+  let key : Entry → Nat := fun e => match e.recv with | .dflt k => k | .item n => n + 2 | .spawn n => n + 1000000
   l.foldl (fun acc x => acc.takeWhile (fun y => key y ≤ key x) ++ [x] ++ acc.dropWhile (fun y => key y ≤ key x)) []
 
 def canonLog (l : List Entry) : List Entry :=
@@ -943,6 +1307,8 @@ def planCtors (p : Parsed) : Dict Nat Nat → List Item → Option Nat × Dict N
       if ((Dict.get? p.raises c).getD []).contains k then (some d.label, counts) else planCtors p counts ds
     | _ => (none, counts)
 
+def reactFuel : Nat := 4000
+
 /-- one load and the observation block it produces; the program state remembers what was loaded
 and how often constructors ran -/
 def runLoad (p : Parsed) (t : TreeSt) : List String × TreeSt × Except Exc World :=
@@ -965,11 +1331,35 @@ def runLoad (p : Parsed) (t : TreeSt) : List String × TreeSt × Except Exc Worl
     | .dict => loadDict U d
     | .direct => populate U {} d
   let called := if p.mode = .file then (descLoads U d).eraseDups else []
-  let t' := { t.call called with ctorCounts := ctorCounts }
+  let t' := { t.call called with ctorCounts := ctorCounts, loadNo := t.loadNo + 1 }
   match res with
   | .error e => ([s!"res raised {e}"], t', res)
   | .ok w =>
     let pre := w.log.length
+    if !p.reactions.isEmpty then
+      -- callbacks act on the world: the program enables dispatching (again while a callback left
+      -- it suspended, at most three more times) and the world is looked at once more afterwards
+      let again := fun (acc : RW × Nat) (_ : Nat) =>
+        if acc.1.w.enabled || acc.1.stop then acc else (setEnabledR U reactFuel acc.1, acc.2 + 1)
+      -- `WorldHandle.load` dispatched on_world_load while nobody listened for it: dropped at once
+      -- (a listener that a reaction creates later does not hear it)
+      let known := (w.handlers.flatMap (fun h => eventNames U h.cls)).eraseDups
+      let w1 := if known.contains onWorldLoad then w else
+        { w with queue := w.queue.filter (fun ev => match ev with | .worldLoad => false | _ => true) }
+      let rw0 := setEnabledR U reactFuel
+        { w := w1, hints := (Dict.get? p.hints t.loadNo).getD [], known := known }
+      let (rw, n) := [0, 1, 2].foldl again (rw0, 0)
+      (["res ok"] ++ showWorld w ++
+        (if p.mode = .file then
+          ["loaded " ++ showNats (sortNats (called.filter (fun h => !Dict.contains t.cached h)))] else []) ++
+        [s!"pre {pre}",
+         match rw.bad, rw.w.failed with
+          | some b, _ => s!"res-enable {b}"
+          | none, some e => s!"res-enable raised {e}"
+          | none, none => "res-enable ok",
+         s!"re-enabled {n}"] ++
+        rw.w.log.map showEntry ++ (showWorld rw.w).map (fun l => "post-" ++ l), t', res)
+    else
     let w2 := if p.mode = .direct then w else setEnabled U w true
     (["res ok"] ++ showWorld w ++
       (if p.mode = .file then
@@ -982,15 +1372,35 @@ def runLoad (p : Parsed) (t : TreeSt) : List String × TreeSt × Except Exc Worl
 /-- `world_handle()` : `Handle.__call__` around one load -/
 def runCall (p : Parsed) (t : TreeSt) : List String × TreeSt :=
   match t.worldCache with
-  | some _ => (["res same-world"], t)
+  | some _ => (["res same-world"], { t with loadNo := t.loadNo + 1 })
   | none =>
     let (obs, t', res) := runLoad p t
     (obs, { t' with worldCache := (callHandle t.worldCache res).1 })
 
+/-- `outer[key] = m` where `m` is the map at `ip` seen from the root above the world handle
+(`-`: that root itself) -/
+def TreeSt.mount (t : TreeSt) (ip key : Str) : TreeSt :=
+  let m? : Option Nat := if ip = ['-'] then some t.root else
+    match t.node t.root ip with
+    | some (.map m) => some m
+    | _ => none
+  match m? with
+  | some m => t.insert outerRoot (splitOn '/' key) (.map m)
+  | none => t
+
+/-- `outer.clear()`: contained maps whose parent it is lose their parent (model/tree.py:259-283) -/
+def TreeSt.unmount (t : TreeSt) : TreeSt :=
+  let kids := (t.contents outerRoot).filterMap (fun e => match e.2 with | .map c => some c | _ => none)
+  { t with parent := kids.foldl (fun par c => if Dict.get? par c = some outerRoot then Dict.erase par c else par) t.parent,
+           maps := Dict.set t.maps outerRoot [] }
+
 def runSteps (p : Parsed) : TreeSt → Nat → List Step → List String
   | _, _, [] => []
+  | t, k, .mount ip key :: rest => runSteps p (t.mount ip key) k rest
+  | t, k, .unmount :: rest => runSteps p t.unmount k rest
   | t, k, .clear h :: rest => runSteps p { t with cached := Dict.erase t.cached h } k rest
-  | t, k, .replace path h :: rest => runSteps p { t with tree := Dict.set t.tree path (.handle h) } k rest
+  | t, k, .replace path h :: rest =>
+    runSteps p (t.insert t.root (splitOn '/' path) (.handle h)) k rest
   | t, k, .call :: rest =>
     let (obs, t') := runCall p t
     s!"load {k} call" :: obs ++ runSteps p t' (k + 1) rest
@@ -1008,9 +1418,10 @@ def stepOk (p : Parsed) : Step → Bool
 
 def runScenario (lines : List String) : List String :=
   let p := lines.foldl parseLine {}
-  if p.bad || !p.steps.all (stepOk p) then ["bad-op"] else
-  let (obs, t) := if p.mode = .direct then (let r := runLoad p { tree := p.tree }; (r.1, r.2.1))
-    else runCall p { tree := p.tree }
+  if p.bad || !p.steps.all (stepOk p) ||
+      (!p.reactions.isEmpty && (p.mode = .direct || p.raises.any (fun r => !r.2.isEmpty))) then ["bad-op"] else
+  let (obs, t) := if p.mode = .direct then (let r := runLoad p (((({} : TreeSt).build innerRoot p.tree).build outerRoot p.outer)); (r.1, r.2.1))
+    else runCall p (((({} : TreeSt).build innerRoot p.tree).build outerRoot p.outer))
   p.rx.map showRx ++ obs ++ runSteps p t 2 p.steps
 
 end Desper.Loader
